@@ -263,13 +263,20 @@ PROPS["C10"] = dict(
     trusted_base=MACHINE_TB,
     assumptions=["typed targets (128-bit integers, quoted numeric/bool keys, raw values) are covered by correspondence only until the typed machine exists",
                  "std io::Bytes semantics"],
-    partial=["c10_prefix_value_partial: the Value-target theorem carries the exception c = NumberOutOfRange (prefix = complete out-of-range number literal) — open known finding C10-out-of-range-number-prefix",
+    partial=["the Value-target statement has one exception, which is a genuine deviation of the crate and not a gap of the proof: a prefix "
+             "that is a complete out-of-range number literal fails with NumberOutOfRange (open known finding "
+             "C10-out-of-range-number-prefix); c10_prefix_value_exact characterises it exactly on the machine state and "
+             "c10_prefix_value_ap shows it cannot occur under arbitrary_precision",
              "typed targets and stream iteration: not yet modelled"],
     technique="Lean 4 theorems over a byte-step machine model (fold decomposition + exhaustive analysis of the end-of-input table "
               "against the classify arms regenerated from error.rs) + differential prefix sweep against the crate",
     level_text="Machine-checked: for the Value and IgnoredAny targets, in every feature configuration and for every input source, "
                "every prefix of an accepted text is accepted or fails at the end of the prefix with an Eof-classified error "
-               "(c10_prefix_ignored; c10_prefix_value_partial with the single inherent NumberOutOfRange exception made explicit). "
+               "(c10_prefix_ignored for skipped content; c10_prefix_value_ap for Value under arbitrary_precision: pure Eof; "
+               "c10_prefix_value_exact for Value in general: the single other outcome is NumberOutOfRange at the end of the prefix, and "
+               "then the machine state reached after the prefix is a number state in a final phase — the prefix ends in a complete "
+               "number literal — whose conversion numValue fails; conversely every such state is rejected that way, "
+               "c10_number_exception; witnessed by 1 followed by 400 zeros, a prefix of the accepted 10…0e-395). "
                "classify and the error codes are regenerated from src/error.rs each run; the machine is compared with the crate on "
                "every prefix of generated and exhaustive short documents, and the property's own predicate is evaluated on the crate's outputs.",
     level_note="Trusted: Lean kernel + propext/Classical.choice/Quot.sound; extract.py; harness/driver; the hand-written machine model "
